@@ -314,7 +314,7 @@ def main(tier):
     rep.assumptions = ['never renamed from or to: self, __init__, operator names, names defined in the default context (Int, Str, Exception, print, ...) and Mamba / Python keywords',
                        'a pool name is fresh only if the program does not use it already']
     replay_entries(rep)
-    nprog, per, half = (30, 4, True) if tier == 'quick' else (1500, 8, False)
+    nprog, per, half = (30, 4, True) if tier == 'quick' else (600, 6, False)
     for d in run_shards(shard, (nprog, per, half)):
         rep.merge(d)
     slots = [k for k in rep.cov if k.startswith('slot:')]
